@@ -166,6 +166,17 @@ def extra_mismatches(ctx, pid):
                 out.append(({'decl': name, 'kind': 'verdict',
                              'what': 'the declaration addresses or initialises bits at or above the declared width N of its arbitrary-int '
                                      'base, yet it compiles: the storage integer can hold state above bit N-1'}, True))
+    if pid == 'C16':
+        # a declaration the rules reject but the macro accepts, with an accessor that cannot be shown total (the reflective
+        # obligation fails: typically a shift or subtraction that overflows for every input)
+        for name in ctx.verdicts['accepted']:
+            d = ctx.by_name.get(name)
+            if d is not None and d['kind'] == 'bitfield' and not d.get('unstructured') and name in ctx.dec and not ctx.dec[name][0]:
+                bad = [l for l, ok in ctx.ob['obligations'].get(name, []) if not ok and l.split(':')[0] in ('get', 'with', 'set')]
+                if bad:
+                    out.append(({'decl': name, 'kind': 'verdict',
+                                 'what': 'the declaration breaks the documented layout rules, yet it compiles, and its accessor(s) %s '
+                                         'cannot be shown to be total and profile-independent' % ', '.join(bad[:4])}, True))
     for m in ctx.beh['facts']['mismatches']:
         w = m.get('what', '')
         if (w.startswith('size/alignment') and pid == 'C06') or (w.startswith('debug text') and pid == 'C19') or \
